@@ -109,3 +109,6 @@ pub use voronoi::{
     convex_cell::Vertex, half_space::HalfSpace, integrals, ConvexCell, Dimensionality, Voronoi,
     VoronoiCell, VoronoiFace, VoronoiIntegrator,
 };
+
+#[cfg(feature = "verif_hooks")]
+pub use voronoi::verif;
